@@ -64,7 +64,7 @@ func storesToField(eng *Engine, typ, field string, allowed map[string]bool) (vio
 				}
 				root := fa.X.Type().(*types.Pointer).Elem()
 				if typeName(root) == typ && fieldNameAt(root, []int{fa.Field}) == field {
-					if !allowed[funcKey(f)] && !eng.helperOf(f, allowed, 2) {
+					if !eng.writerAccepted(f, allowed) {
 						viol = append(viol, funcKey(f)+" writes "+typ+"."+field)
 					}
 				}
@@ -138,7 +138,7 @@ func csmapMutators(eng *Engine, typeSuffix string, allowed map[string]bool) (vio
 				if recv == nil || !strings.HasSuffix(typeName(recv.Type()), typeSuffix) {
 					continue
 				}
-				if !allowed[funcKey(f)] {
+				if !eng.writerAccepted(f, allowed) {
 					viol = append(viol, funcKey(f)+" mutates a ConcurrentSwissMap of "+typeSuffix)
 				}
 			}
@@ -205,7 +205,7 @@ func init() {
 						continue
 					}
 					root := fa.X.Type().(*types.Pointer).Elem()
-					if typeName(root) == "stream.stream" && fieldNameAt(root, []int{fa.Field}) == "activeStreams" && !allowed[funcKey(f)] {
+					if typeName(root) == "stream.stream" && fieldNameAt(root, []int{fa.Field}) == "activeStreams" && !eng.writerAccepted(f, allowed) {
 						viol = append(viol, funcKey(f)+" changes activeStreams ("+callee.Name()+")")
 					}
 				}
@@ -213,6 +213,17 @@ func init() {
 		}
 		return
 	}
+}
+
+// writerAccepted: f is in the allowed set, or is a closure inside an accepted function, or is a plain
+// helper (helperOf) of accepted functions.
+func (eng *Engine) writerAccepted(f *ssa.Function, allowed map[string]bool) bool {
+	for g := f; g != nil; g = g.Parent() {
+		if allowed[funcKey(g)] || eng.helperOf(g, allowed, 2) {
+			return true
+		}
+	}
+	return false
 }
 
 // helperOf: f is only ever called (statically, never used as a value) from functions of the allowed
@@ -231,7 +242,7 @@ func (eng *Engine) helperOf(f *ssa.Function, allowed map[string]bool, depth int)
 						if !isCall || c.Call.Value != f {
 							return false // taken as a value / go / defer: not a plain helper call
 						}
-						if g != f && !allowed[funcKey(g)] && !eng.helperOf(g, allowed, depth-1) {
+						if g != f && !eng.callerAccepted(g, allowed, depth-1) {
 							return false
 						}
 						callers++
@@ -241,6 +252,15 @@ func (eng *Engine) helperOf(f *ssa.Function, allowed map[string]bool, depth int)
 		}
 	}
 	return callers > 0
+}
+
+func (eng *Engine) callerAccepted(g *ssa.Function, allowed map[string]bool, depth int) bool {
+	for h := g; h != nil; h = h.Parent() {
+		if allowed[funcKey(h)] || eng.helperOf(h, allowed, depth) {
+			return true
+		}
+	}
+	return false
 }
 
 // fieldWriterScan builds a scan from a table "Type.field" -> functions allowed to assign it.
@@ -300,7 +320,7 @@ func staticCallers(eng *Engine, callee string, allowed map[string]bool) (viol []
 					if !ok || funcKey(fn) != callee {
 						continue
 					}
-					if !allowed[funcKey(f)] {
+					if !eng.writerAccepted(f, allowed) {
 						viol = append(viol, funcKey(f)+" uses "+callee)
 					}
 				}
@@ -327,7 +347,7 @@ func init() {
 		v, n = merge(v, n, nil, 0)
 		v2, n2 := storesToField(eng, "stream.stream", "dirtyOffsets", set("stream.(*stream).Open", "stream.(*stream).Close", "stream.(*stream).UnmarkDirtyOffsets"))
 		v, n = merge(v, n, v2, n2)
-		v3, n3 := storesToField(eng, "stream.stream", "anyDirtyOffset", set("stream.(*stream).Open", "stream.(*stream).UnmarkDirtyOffsets", "stream.(*stream).waitAndForward$1", "stream.(*stream).setOffset"))
+		v3, n3 := storesToField(eng, "stream.stream", "anyDirtyOffset", set("stream.(*stream).Open", "stream.(*stream).UnmarkDirtyOffsets", "stream.(*stream).waitAndForward", "stream.(*stream).waitAndForward$1", "stream.(*stream).setOffset"))
 		v, n = merge(v, n, v3, n3)
 		v4, n4 := csmapMutators(eng, "ConcurrentSwissMap_of_uint16_ptr.models.Offset", set("stream.(*stream).setOffset", "stream.(*checkpoint).Load$1", "stream.(*checkpoint).Load$2"))
 		v, n = merge(v, n, v4, n4)
